@@ -449,10 +449,20 @@ func everyPathTo(in ssa.Instruction, accept func(conds []fact) bool) (ok, decide
 	return found, true
 }
 
+// everyUnitPathToResolved: everyUnitPathTo, always on unit paths with the conditions resolved along the path (a
+// boolean kept in a variable is the comparison or constant it was assigned on that path).
+func everyUnitPathToResolved(root *ssa.Function, in ssa.Instruction, accept func(conds []fact) bool) (ok, decided bool) {
+	forceUnitPaths = true
+	defer func() { forceUnitPaths = false }()
+	return everyUnitPathTo(root, in, accept)
+}
+
+var forceUnitPaths bool
+
 // everyUnitPathTo: like everyPathTo, over the paths of root with its private helpers inlined (in may sit in a helper).
 func everyUnitPathTo(root *ssa.Function, in ssa.Instruction, accept func(conds []fact) bool) (ok, decided bool) {
 	flatOK, flatDecided := false, false
-	if in.Parent() == root {
+	if in.Parent() == root && !forceUnitPaths {
 		flatOK, flatDecided = everyPathTo(in, accept)
 		if flatOK && flatDecided {
 			return true, true
